@@ -156,6 +156,36 @@ def run_oracle(prop, trace, timeout=600):
     return verdicts
 
 
+MAX_NS = 1000 * 365 * 24 * 3600 * 10**9
+
+
+def py_oracle_C17(case):
+    """policy() reports the knobs; build panics iff ttl or tti exceeds 1000 years."""
+    cfg = dict(f.split("=", 1) for f in op_of(case[0]).split()[1:] if "=" in f)
+    res = case[0].split(" -> ")[-1].strip()
+    def dur(x):
+        return None if x in (None, "none", "-") else int(x)
+    ttl, tti = dur(cfg.get("ttl")), dur(cfg.get("tti"))
+    if cfg.get("kind") not in ("unsync", "sync"):
+        return True
+    want_panic = "builder-ttl" if (ttl is not None and ttl > MAX_NS) else \
+        ("builder-tti" if (tti is not None and tti > MAX_NS) else None)
+    if want_panic:
+        return res == "panic " + want_panic
+    if res != "ok":
+        return False
+    cap = cfg.get("cap")
+    exp = "policy cap={} ttl={} tti={}".format("-" if cap in (None, "none") else cap,
+                                              "-" if ttl is None else ttl, "-" if tti is None else tti)
+    for l in case[1:]:
+        if op_of(l) == "policy" and l.split(" -> ")[-1].strip() != exp:
+            return False
+    return True
+
+
+PY_ORACLES = {"C17": py_oracle_C17}
+
+
 def split_cases(text):
     cases, cur = [], None
     for l in text.splitlines():
@@ -291,7 +321,9 @@ def worker(args):
         return res
     ic, mc = split_cases(impl), split_cases(model)
     oc = split_cases(ops)
-    verdicts = run_oracle(oracle_id, impl) if oracle_id else {}
+    verdicts = run_oracle(oracle_id, impl) if (oracle_id and oracle_id not in PY_ORACLES) else {}
+    if oracle_id in PY_ORACLES:
+        verdicts = {i: (("ok" if PY_ORACLES[oracle_id](c) else "FAIL"), "") for i, c in enumerate(ic)}
     hist = {}
     for idx, c in enumerate(ic):
         for l in c[1:]:
@@ -330,7 +362,9 @@ def judge_case(prop, ops_lines, mode, oracle_id):
     ic = split_cases(impl)
     mc = split_cases(model or "")
     ok = True
-    if oracle_id:
+    if oracle_id in PY_ORACLES:
+        ok = all(PY_ORACLES[oracle_id](c) for c in ic)
+    elif oracle_id:
         v = run_oracle(oracle_id, impl)
         ok = all(x[0] in ("ok", "SKIP") for x in v.values()) and len(v) == len(ic)
     if ierr:
